@@ -24,6 +24,28 @@ def iter_sentinel(function, sentinel):
         yield value
 
 
+class ExitStack:
+    def __init__(self):
+        self._entered = []
+
+    def __enter__(self):
+        return self
+
+    def enter_context(self, cm):
+        result = cm.__enter__()
+        self._entered.append(cm)
+        return result
+
+    def __exit__(self, exc_type, exc_value, traceback):
+        for cm in reversed(self._entered):
+            cm.__exit__(None, None, None)
+        self._entered = []
+        return False
+
+    def close(self):
+        self.__exit__(None, None, None)
+
+
 def map1(function, iterable):
     for item in iterable:
         yield function(item)
@@ -380,6 +402,17 @@ class Program:
             mod = Module('<builtins>', '<builtins>', tree, SYNTHETIC_SRC)
             self.modules['<builtins>'] = mod
             for st in tree.body:
+                if isinstance(st, ast.ClassDef):
+                    ci = ClassInfo(f'builtins.{st.name}', st, mod)
+                    for cst in st.body:
+                        if isinstance(cst, ast.FunctionDef):
+                            mfi = FuncInfo(f'{ci.qualname}.{cst.name}', cst, mod, ci)
+                            ci.methods[cst.name] = mfi
+                            self._own(cst, mfi)
+                    ci.mro = [ci, 'object']
+                    ci.bases = ['object']
+                    mod.symbols[st.name] = ('class', ci)
+                    continue
                 fi = FuncInfo(f'builtins.{st.name}', st, mod)
                 mod.symbols[st.name] = ('func', fi)
                 self._own(st, fi)
